@@ -272,7 +272,10 @@ def k1_tagged(src):
     pairs = []
     prev = -1
     for i in range(nf):
-        tag = src.int(f"tag{i}", 0, 300)
+        # tags around the varint length boundaries (0, 127/128, 16383/16384); a symbolic tag is a dict
+        # key on the decode side, which forces its value, so the domain is kept small
+        base = [0, 124, 16380][src.choice(f"tagbase{i}", 3)]
+        tag = base + src.int(f"tag{i}", 0, 7)
         src.assume(tag > prev, "tags strictly increasing")
         prev = tag
         val = [b"", b"a", b"ab"][src.choice(f"vlen{i}", 3)]
@@ -304,7 +307,7 @@ def k1_tagged(src):
         # tag varint length depends on the (symbolic) tag
         tl = 0
         for tag, _ in pairs:
-            tl = tl + (2 if (tag >= 128) else 1)
+            tl = tl + (3 if (tag >= 16384) else (2 if (tag >= 128) else 1))
         src.check(len(enc) == total + tl, "TaggedFields wire length != count + sum(tag + size + value)")
 
 
@@ -458,8 +461,8 @@ def harnesses(tier):
                           shape="K", symbolic_vars="length in {null,0,1,2,127} (choice); first 2 items symbolic int32",
                           bounds={"lengths": [None, 0, 1, 2, 127]}))
     hs.append(Harness(name="K1_tagged_fields", fn=k1_tagged, functions=[T.TaggedFields.encode, T.TaggedFields.decode],
-                      shape="K", symbolic_vars="0..2 fields; tags symbolic in [0,300] strictly increasing; value length 0..2 (choice)",
-                      bounds={"fields": "0..2", "tag": "0..300", "value_len": "0..2"},
+                      shape="K", symbolic_vars="0..2 fields; tags symbolic around the varint length boundaries, strictly increasing; value length 0..2 (choice)",
+                      bounds={"fields": "0..2", "tag": "0..7, 124..131, 16380..16387", "value_len": "0..2"},
                       assumptions=["tags strictly increasing (protocol guide)"],
                       stubs=["isinstance shadowed in protocol.types so proxies count as int/bytes"], max_paths=20000))
     hs.append(Harness(name="K1_boolean", fn=k1_boolean, functions=[T.Boolean.encode, T.Boolean.decode], shape="K",
